@@ -2,11 +2,11 @@ package sym
 
 import (
 	"fmt"
-	"os"
-	"time"
 	"go/types"
+	"os"
 	"sort"
 	"strings"
+	"time"
 
 	"golang.org/x/tools/go/ssa"
 )
